@@ -140,12 +140,57 @@ def split_batch_scenario(coll, stats):
                 break
 
 
+def handover_scenarios(coll, stats, tier):
+    """The C10 hand-over configurations (evolutions, marked and executed
+    migrations, soft-applied initial migrations) under the acceptor."""
+    from vf.checks import c10
+    from django_evolution import management
+    for (k, m, s_, st, nb, pkg) in c10.configs(tier):
+        if pkg:
+            continue
+        cfg = c10.Config(k, m, s_, st, nb, pkg)
+        B.fresh_db('default')
+        B.reset_globals()
+        if cfg.start != 'empty':
+            upto = 0 if cfg.start == 'v0' else int(cfg.start[1:])
+            cfg.install_old(upto)
+            if not EB.upgrade('D2').ok:
+                continue
+        cfg.install_final()
+        B.reset_globals()
+        seq = [0]
+        tracer = O.Tracer('default', seq=seq)
+        lock = management._evolve_lock
+        with O.SignalLog(seq) as log:
+            res = EB.upgrade('D2', tracer=tracer)
+        stats['extra_runs'] += 1
+        replay = dict(cfg.describe(), scenario='handover')
+        for clause, detail in acceptor.check(
+                log.events, tracer.statements,
+                'ok' if res.ok else 'failed', lock, management._evolve_lock,
+                saved=res.ok):
+            coll.add('C17|%s|handover|%s' % (
+                clause, 'ok' if res.ok else 'failed-run'), replay, detail)
+        if res.ok:
+            # applied_migration must be reported for exactly the migrations
+            # this run recorded as executed (incl. soft-applied ones)
+            started = [p['migration'] for (_q, n, p) in log.events
+                       if n == 'applying_migration']
+            done = [p['migration'] for (_q, n, p) in log.events
+                    if n == 'applied_migration']
+            if sorted(started) != sorted(done):
+                coll.add('C17|applying_migration-not-matched-by-applied_'
+                         'migration|handover', replay,
+                         {'applying': started, 'applied': done})
+
+
 def run(tier, seed, confirm=True):
     t0 = time.time()
     total, coll, tasks = c07.run(tier, seed, confirm=False, prop='C17')
     stats = {'extra_runs': 0}
     extra_scenarios(coll, stats)
     split_batch_scenario(coll, stats)
+    handover_scenarios(coll, stats, tier)
     coverage = {
         'evaluations': total['runs'] + stats['extra_runs'],
         'distinct_nontrivial': total['faulted_runs'] + total['programs'],
@@ -177,6 +222,7 @@ def replay(path):
         coll = findings.Collector('C17')
         extra_scenarios(coll, {'extra_runs': 0})
         split_batch_scenario(coll, {'extra_runs': 0})
+        handover_scenarios(coll, {'extra_runs': 0}, 'quick')
         for fp in coll.by_fp:
             print('  ', fp)
         if doc['fingerprint'] in coll.by_fp:
